@@ -95,7 +95,7 @@ PROPS = {'C18': {'title': 'Inflights window is a bounded FIFO under resizing',
                        'a reply to persisted messages stepped before on_persist_ready (become_leader assert): read as outside the Ready contract, see '
                        'DESIGN.md A.4'],
          'assumptions': ['mode S for raft.rs and raw_node.rs (fatal!/panic!/assert! abort; postconditions hold on normal return)',
-                         'assumed contracts (fingerprint-locked in spec/assumed.lock.json): ProgressTracker::{get_mut, record_vote, clear}, '
+                         'assumed contracts (fingerprint-locked in spec/assumed.lock.json): ProgressTracker::{get_mut, record_vote}, '
                          'Configuration::to_conf_state, Raft::has_unapplied_conf_changes (K-ext Kani), RaftCore::try_batching (K-ext Kani); ReadOnly is under '
                          'contract over a byte-keyed view of its table: the five std HashMap operations with Vec<u8> / &[u8] keys are specified helpers '
                          '(verif_ri_*)',
@@ -139,7 +139,7 @@ PROPS = {'C18': {'title': 'Inflights window is a bounded FIFO under resizing',
                      'entries)',
                      'mon_c14 (log reads)'],
          'assumptions': ['mode S for raft.rs and raw_node.rs (fatal!/panic!/assert! abort; postconditions hold on normal return)',
-                         'assumed contracts (fingerprint-locked in spec/assumed.lock.json): ProgressTracker::{get_mut, record_vote, clear}, '
+                         'assumed contracts (fingerprint-locked in spec/assumed.lock.json): ProgressTracker::{get_mut, record_vote}, '
                          'Configuration::to_conf_state, Raft::has_unapplied_conf_changes (K-ext Kani), RaftCore::try_batching (K-ext Kani); ReadOnly is under '
                          'contract over a byte-keyed view of its table: the five std HashMap operations with Vec<u8> / &[u8] keys are specified helpers '
                          '(verif_ri_*)',
@@ -157,7 +157,7 @@ PROPS = {'C18': {'title': 'Inflights window is a bounded FIFO under resizing',
                      'keeps term and vote; hup does not campaign with an unapplied membership change up to the commit index'],
          'undecided': ['leader completeness itself (cluster-wide induction)'],
          'assumptions': ['mode S for raft.rs and raw_node.rs (fatal!/panic!/assert! abort; postconditions hold on normal return)',
-                         'assumed contracts (fingerprint-locked in spec/assumed.lock.json): ProgressTracker::{get_mut, record_vote, clear}, '
+                         'assumed contracts (fingerprint-locked in spec/assumed.lock.json): ProgressTracker::{get_mut, record_vote}, '
                          'Configuration::to_conf_state, Raft::has_unapplied_conf_changes (K-ext Kani), RaftCore::try_batching (K-ext Kani); ReadOnly is under '
                          'contract over a byte-keyed view of its table: the five std HashMap operations with Vec<u8> / &[u8] keys are specified helpers '
                          '(verif_ri_*)',
@@ -190,7 +190,7 @@ PROPS = {'C18': {'title': 'Inflights window is a bounded FIFO under resizing',
                      'term and keeps the stored vote'],
          'undecided': ['the crash-point statement over all schedules'],
          'assumptions': ['mode S for raft.rs and raw_node.rs (fatal!/panic!/assert! abort; postconditions hold on normal return)',
-                         'assumed contracts (fingerprint-locked in spec/assumed.lock.json): ProgressTracker::{get_mut, record_vote, clear}, '
+                         'assumed contracts (fingerprint-locked in spec/assumed.lock.json): ProgressTracker::{get_mut, record_vote}, '
                          'Configuration::to_conf_state, Raft::has_unapplied_conf_changes (K-ext Kani), RaftCore::try_batching (K-ext Kani); ReadOnly is under '
                          'contract over a byte-keyed view of its table: the five std HashMap operations with Vec<u8> / &[u8] keys are specified helpers '
                          '(verif_ri_*)',
@@ -214,7 +214,7 @@ PROPS = {'C18': {'title': 'Inflights window is a bounded FIFO under resizing',
                      'activity flags are reset'],
          'undecided': ['"a healthy leader is never deposed" as a history statement'],
          'assumptions': ['mode S for raft.rs and raw_node.rs (fatal!/panic!/assert! abort; postconditions hold on normal return)',
-                         'assumed contracts (fingerprint-locked in spec/assumed.lock.json): ProgressTracker::{get_mut, record_vote, clear}, '
+                         'assumed contracts (fingerprint-locked in spec/assumed.lock.json): ProgressTracker::{get_mut, record_vote}, '
                          'Configuration::to_conf_state, Raft::has_unapplied_conf_changes (K-ext Kani), RaftCore::try_batching (K-ext Kani); ReadOnly is under '
                          'contract over a byte-keyed view of its table: the five std HashMap operations with Vec<u8> / &[u8] keys are specified helpers '
                          '(verif_ri_*)',
@@ -235,7 +235,7 @@ PROPS = {'C18': {'title': 'Inflights window is a bounded FIFO under resizing',
                      'move the applied index exactly to the given index (0: unchanged) and change nothing else of the Ready bookkeeping'],
          'undecided': ['exactly-once over the lifetime'],
          'assumptions': ['mode S for raft.rs and raw_node.rs (fatal!/panic!/assert! abort; postconditions hold on normal return)',
-                         'assumed contracts (fingerprint-locked in spec/assumed.lock.json): ProgressTracker::{get_mut, record_vote, clear}, '
+                         'assumed contracts (fingerprint-locked in spec/assumed.lock.json): ProgressTracker::{get_mut, record_vote}, '
                          'Configuration::to_conf_state, Raft::has_unapplied_conf_changes (K-ext Kani), RaftCore::try_batching (K-ext Kani); ReadOnly is under '
                          'contract over a byte-keyed view of its table: the five std HashMap operations with Vec<u8> / &[u8] keys are specified helpers '
                          '(verif_ri_*)',
@@ -254,7 +254,7 @@ PROPS = {'C18': {'title': 'Inflights window is a bounded FIFO under resizing',
                      'restore discards only when installing; the election clauses that keep one leader per term (C03.step_candidate.counts_only_own_kind)'],
          'undecided': ['log matching between nodes (cluster statement)'],
          'assumptions': ['mode S for raft.rs and raw_node.rs (fatal!/panic!/assert! abort; postconditions hold on normal return)',
-                         'assumed contracts (fingerprint-locked in spec/assumed.lock.json): ProgressTracker::{get_mut, record_vote, clear}, '
+                         'assumed contracts (fingerprint-locked in spec/assumed.lock.json): ProgressTracker::{get_mut, record_vote}, '
                          'Configuration::to_conf_state, Raft::has_unapplied_conf_changes (K-ext Kani), RaftCore::try_batching (K-ext Kani); ReadOnly is under '
                          'contract over a byte-keyed view of its table: the five std HashMap operations with Vec<u8> / &[u8] keys are specified helpers '
                          '(verif_ri_*)',
@@ -279,7 +279,7 @@ PROPS = {'C18': {'title': 'Inflights window is a bounded FIFO under resizing',
                      'acknowledgements are persisted messages; followers never commit beyond min(leader commit, last new index)'],
          'undecided': ['durability on a quorum as a cluster statement'],
          'assumptions': ['mode S for raft.rs and raw_node.rs (fatal!/panic!/assert! abort; postconditions hold on normal return)',
-                         'assumed contracts (fingerprint-locked in spec/assumed.lock.json): ProgressTracker::{get_mut, record_vote, clear}, '
+                         'assumed contracts (fingerprint-locked in spec/assumed.lock.json): ProgressTracker::{get_mut, record_vote}, '
                          'Configuration::to_conf_state, Raft::has_unapplied_conf_changes (K-ext Kani), RaftCore::try_batching (K-ext Kani); ReadOnly is under '
                          'contract over a byte-keyed view of its table: the five std HashMap operations with Vec<u8> / &[u8] keys are specified helpers '
                          '(verif_ri_*)',
@@ -331,7 +331,7 @@ PROPS = {'C18': {'title': 'Inflights window is a bounded FIFO under resizing',
                      'votes and configuration'],
          'undecided': ['application state equality (outside the library)'],
          'assumptions': ['mode S for raft.rs and raw_node.rs (fatal!/panic!/assert! abort; postconditions hold on normal return)',
-                         'assumed contracts (fingerprint-locked in spec/assumed.lock.json): ProgressTracker::{get_mut, record_vote, clear}, '
+                         'assumed contracts (fingerprint-locked in spec/assumed.lock.json): ProgressTracker::{get_mut, record_vote}, '
                          'Configuration::to_conf_state, Raft::has_unapplied_conf_changes (K-ext Kani), RaftCore::try_batching (K-ext Kani); ReadOnly is under '
                          'contract over a byte-keyed view of its table: the five std HashMap operations with Vec<u8> / &[u8] keys are specified helpers '
                          '(verif_ri_*)',
@@ -355,7 +355,7 @@ PROPS = {'C18': {'title': 'Inflights window is a bounded FIFO under resizing',
                      "becomes follower; Raft::new: the tracker's configuration equals the stored ConfState and promotable iff voter"],
          'undecided': ['identical configurations at equal applied index across nodes (history statement)'],
          'assumptions': ['mode S for raft.rs and raw_node.rs (fatal!/panic!/assert! abort; postconditions hold on normal return)',
-                         'assumed contracts (fingerprint-locked in spec/assumed.lock.json): ProgressTracker::{get_mut, record_vote, clear}, '
+                         'assumed contracts (fingerprint-locked in spec/assumed.lock.json): ProgressTracker::{get_mut, record_vote}, '
                          'Configuration::to_conf_state, Raft::has_unapplied_conf_changes (K-ext Kani), RaftCore::try_batching (K-ext Kani); ReadOnly is under '
                          'contract over a byte-keyed view of its table: the five std HashMap operations with Vec<u8> / &[u8] keys are specified helpers '
                          '(verif_ri_*)',
@@ -376,7 +376,7 @@ PROPS = {'C18': {'title': 'Inflights window is a bounded FIFO under resizing',
                      'become_leader clear it'],
          'undecided': ['completion in a healthy cluster'],
          'assumptions': ['mode S for raft.rs and raw_node.rs (fatal!/panic!/assert! abort; postconditions hold on normal return)',
-                         'assumed contracts (fingerprint-locked in spec/assumed.lock.json): ProgressTracker::{get_mut, record_vote, clear}, '
+                         'assumed contracts (fingerprint-locked in spec/assumed.lock.json): ProgressTracker::{get_mut, record_vote}, '
                          'Configuration::to_conf_state, Raft::has_unapplied_conf_changes (K-ext Kani), RaftCore::try_batching (K-ext Kani); ReadOnly is under '
                          'contract over a byte-keyed view of its table: the five std HashMap operations with Vec<u8> / &[u8] keys are specified helpers '
                          '(verif_ri_*)',
@@ -399,7 +399,7 @@ PROPS = {'C18': {'title': 'Inflights window is a bounded FIFO under resizing',
                      'indexes recorded at request time and forgets them; queue and table stay consistent (every queued context pending, none queued twice)'],
          'undecided': ['linearizability over all schedules'],
          'assumptions': ['mode S for raft.rs and raw_node.rs (fatal!/panic!/assert! abort; postconditions hold on normal return)',
-                         'assumed contracts (fingerprint-locked in spec/assumed.lock.json): ProgressTracker::{get_mut, record_vote, clear}, '
+                         'assumed contracts (fingerprint-locked in spec/assumed.lock.json): ProgressTracker::{get_mut, record_vote}, '
                          'Configuration::to_conf_state, Raft::has_unapplied_conf_changes (K-ext Kani), RaftCore::try_batching (K-ext Kani); ReadOnly is under '
                          'contract over a byte-keyed view of its table: the five std HashMap operations with Vec<u8> / &[u8] keys are specified helpers '
                          '(verif_ri_*)',
